@@ -28,8 +28,11 @@ pub open spec fn is_xml_name(s: Seq<char>) -> bool {
     s.len() > 0 && name_start_char(s[0]) && forall|i: int| 0 <= i < s.len() ==> name_char(#[trigger] s[i])
 }
 
-/// hand transcription of the variant of serialize::SeError that is constructed here
-pub enum SeError { Unsupported(Cow<'static, str>) }
+#[verifier::external_type_specification]
+#[verifier::external_body]
+pub struct ExUtf8Error(core::str::Utf8Error);
+/// hand transcription of serialize::SeError (the Io variant, never constructed by the verified functions, is left out)
+pub enum SeError { Custom(String), Fmt(core::fmt::Error), Unsupported(Cow<'static, str>), NonEncodable(core::str::Utf8Error) }
 
 pub mod strshim {
     use vstd::prelude::*;
